@@ -51,9 +51,6 @@ def sessionTags (ms : MState) (segs : List (List UInt8)) : List String :=
   (if bnd.any (fun b => lay.any (fun l => l.2 > 2 && l.1 + 2 < b && b < l.1 + l.2)) then ["split-in-length-field"] else []) ++
   (if !(decide (InScope ms.max ms.buf ms.sess)) then ["outside-hypotheses"] else [])
 
-def msgOutOf (x : Err × Sonic.Model.WsStream.Asm) : MsgOut :=
-  { err := x.1, ty := x.2.ty, n := x.2.n, data := x.2.data, clean := true, ctl := x.2.ctl }
-
 def firstDiff {α : Type} [DecidableEq α] : List α → List α → Nat → Option Nat
   | [], [], _ => none
   | a :: r, b :: t, i => if a = b then firstDiff r t (i + 1) else some i
@@ -74,10 +71,7 @@ def step (ms : MState) (r : OpRec) (res : Driver.Result) : MState × Driver.Resu
     let rooms := r.rds.map (·.1)
     let w := W.init ms.max (rooms.head?.getD 4096) segs rooms
     let bound := ms.sess.frames.length + 3
-    let out : X (Obs × W) := match api with
-      | .frame => (runFrames async bound w).map fun x => (.frames (x.1.map fun y => { err := y.1, f := y.2 }), x.2)
-      | .msg => (runMsgs async ms.buf bound w).map fun x => (.msgs (x.1.map msgOutOf), x.2)
-    match out with
+    match observe api async ms.buf bound w with
     | .error (.buf .env) =>
       (ms, { res with envBad := res.envBad <|> some (r.line, "a room reported by the transport is not one the model's Reserve allows") })
     | .error e =>
